@@ -135,6 +135,29 @@ def sp_seq_run(ip, st, pos, kws):
     return ip.lst_view(T("(seq_run %s %s %s)" % (es.s, xs.s, ip.num(pos[2]).s), sort))
 
 
+def sp_getter_of(ip, st, pos, kws):
+    """getter_of(var, v): var.getter(v) for an abstract variable object"""
+    f = ip.reg.ufun("el_m_getter", ["Obj", "V"], "V")
+    return Opaque(T("(%s %s %s)" % (f, obj_term(pos[0]).s, v_term(ip, pos[1]).s), "V"))
+
+
+def sp_compose_getters(ip, st, pos, kws):
+    """compose_getters(vars, v, n): vars[n-1].getter(... vars[0].getter(v) ...)"""
+    reg = ip.reg
+    osort = reg.lst("Obj")
+    reg.ufun("el_m_getter", ["Obj", "V"], "V")
+    reg.fun_decl("compose_getters",
+                 "(define-fun-rec compose_getters ((vs %s) (v V) (n Int)) V "
+                 "(ite (<= n 0) v (el_m_getter (select (arr_%s vs) (- n 1)) (compose_getters vs v (- n 1)))))" % (osort, osort))
+    vs = lst_term(ip, st, pos[0], osort)
+    return Opaque(T("(compose_getters %s %s %s)" % (vs.s, v_term(ip, pos[1]).s, ip.num(pos[2]).s), "V"))
+
+
+def sp_el_call_raises(ip, st, pos, kws):
+    f = ip.reg.ufun("el_call_raises", ["Obj", "V"], "Bool")
+    return Bool(T("(%s %s %s)" % (f, obj_term(pos[0]).s, v_term(ip, pos[1]).s), "Bool"))
+
+
 def sp_same(ip, st, pos, kws):
     """same(a, b): the two sequences are the same list term (stronger than ==; what uninterpreted denotations need)"""
     a, b = pos
@@ -210,5 +233,6 @@ def register(ix):
     for name, fn in [("el_call", sp_el_call), ("el_run", sp_el_run), ("el_source", sp_el_source), ("elstate", sp_elstate),
                      ("el_fill", sp_el_fill), ("el_fill_stops", sp_el_fill_stops), ("el_compute", sp_el_compute), ("el_request", sp_el_request),
                      ("el_request_state", sp_el_request_state), ("el_reset", sp_el_reset),
-                     ("fold_fill", sp_fold_fill), ("seq_run", sp_seq_run), ("same", sp_same), ("has_run", sp_has_run)]:
+                     ("fold_fill", sp_fold_fill), ("seq_run", sp_seq_run), ("same", sp_same), ("has_run", sp_has_run),
+                     ("getter_of", sp_getter_of), ("el_call_raises", sp_el_call_raises), ("compose_getters", sp_compose_getters)]:
         ix.spec_names[name] = fn
